@@ -54,6 +54,11 @@ class MatchingRequestParameter(Parameter):
     @override
     def _encode_positioned_into_pdu(self, physical_value: Optional[ParameterValue],
                                     encode_state: EncodeState) -> None:
+        if physical_value is not None:
+            odxraise(
+                "The value of MATCHING-REQUEST-PARAM parameters cannot be set "
+                "directly!", EncodeError)
+
         if encode_state.triggering_request is None:
             odxraise(
                 f"Parameter '{self.short_name}' is of matching request type,"
